@@ -122,6 +122,7 @@ def lookupName (d : Disk) (sc : Scope) (nm : Name) : Option Acct :=
 
 inductive Err
   | acctNotFound | dupName | badName | tooMany | locked | insufficient | notifyFail | badKey | dbError | noCoin
+  | commitFail
 deriving DecidableEq, Repr
 
 /-- deferred `OnCommit` closure of `nextAddresses` -/
@@ -193,13 +194,14 @@ inductive Res
 deriving DecidableEq, Repr
 
 inductive Op
-  | newAddr (sc : Scope) (a : Acct) (internal : Bool)
+  /-- `cf` (here and below): the COMMIT of the request's database transaction fails -/
+  | newAddr (sc : Scope) (a : Acct) (internal : Bool) (cf : Bool)
   | curAddr (sc : Scope) (a : Acct)
   | fund (sc : Scope) (a : Acct)
-  | createTx (sc : Scope) (a : Acct) (dry huge notifyFail : Bool)
+  | createTx (sc : Scope) (a : Acct) (dry huge notifyFail cf : Bool)
   | fundPsbt (sc : Scope) (a : Acct) (coin : Option Nat)
-  | importAcct (dry : Bool) (sc : Scope) (name : Name) (key : Key) (n : Nat)
-  | rename (sc : Scope) (a : Acct) (name : Name)
+  | importAcct (dry : Bool) (sc : Scope) (name : Name) (key : Key) (n : Nat) (cf : Bool)
+  | rename (sc : Scope) (a : Acct) (name : Name) (cf : Bool)
   | newAcct (sc : Scope) (name : Name)
   | lock
   | unlock
@@ -219,9 +221,10 @@ def issue1 (s : State) (t : Tx) (sc : Scope) (a : Acct) (internal : Bool) (abort
       | some res => (rollback s r.1, if res = .ok then .addr ad else res)
       | none => (commit r.1, .addr ad)
 
-/-- wallet.NewAddress / NewChangeAddress -/
-def stepNewAddr (s : State) (sc : Scope) (a : Acct) (internal : Bool) : State × Res :=
-  issue1 s (begin s) sc a internal none
+/-- wallet.NewAddress / NewChangeAddress (`cf`: the commit fails - the transaction is rolled back, the `OnCommit`
+closure never runs, the eager cache mutations stay) -/
+def stepNewAddr (s : State) (sc : Scope) (a : Acct) (internal : Bool) (cf : Bool := false) : State × Res :=
+  issue1 s (begin s) sc a internal (if cf then some (.err .commitFail) else none)
 
 /-- wallet.CurrentAddress -/
 def stepCurAddr (s : State) (sc : Scope) (a : Acct) : State × Res :=
@@ -256,7 +259,7 @@ def scanFunded (d : Disk) (sc : Scope) (a : Acct) : List (Scope × Addr) → Mem
     ((p.1 == sc && lk.1 == some a) || r.1, r.2)
 
 /-- wallet.CreateSimpleTx → txToOutputs -/
-def stepCreateTx (s : State) (sc : Scope) (a : Acct) (dry huge nf : Bool) : State × Res :=
+def stepCreateTx (s : State) (sc : Scope) (a : Acct) (dry huge nf : Bool) (cf : Bool := false) : State × Res :=
   if s.mem.locked then (s, .err .locked) else
   let ld := loadAcct s.disk s.mem sc a
   match ld.1 with
@@ -265,7 +268,7 @@ def stepCreateTx (s : State) (sc : Scope) (a : Acct) (dry huge nf : Bool) : Stat
     let sf := scanFunded s.disk sc a s.disk.funded ld.2
     if huge || !sf.1 then ({ s with mem := sf.2 }, .err .insufficient) else
     issue1 s { d := s.disk, m := sf.2, pend := [] } sc a true
-      (if dry then some .ok else if nf then some (.err .notifyFail) else none)
+      (if dry then some .ok else if nf then some (.err .notifyFail) else if cf then some (.err .commitFail) else none)
 
 /-- wallet.FundPsbt -/
 def stepFundPsbt (s : State) (sc : Scope) (a : Acct) : Option Nat → State × Res
@@ -296,7 +299,7 @@ def invalUnfixed (m : Mem) (sc : Scope) (a : Acct) : Mem := { m with accts := se
 /-- wallet.ImportAccount / ImportAccountDryRun (`n` preview addresses per branch); `inval` = the cache invalidation
 the dry run performs -/
 def stepImportWith (inval : Mem → Scope → Acct → Mem) (s : State) (dry : Bool) (sc : Scope) (nm : Name) (key : Key)
-    (n : Nat) : State × Res :=
+    (n : Nat) (cf : Bool := false) : State × Res :=
   if key = 0 then (s, .err .badKey) else
   let acct := s.disk.last sc + 1
   if nm = 0 then (s, .err .badName) else
@@ -306,7 +309,10 @@ def stepImportWith (inval : Mem → Scope → Acct → Mem) (s : State) (dry : B
   match ld.1 with
   | none => ({ s with mem := ld.2 }, .err .acctNotFound)
   | some r =>
-    if !dry then ({ disk := d1, mem := ld.2 }, .imported acct r [] []) else
+    if !dry then
+      -- a failed commit leaves the account that `AccountProperties` loaded from the transaction's view in the cache
+      (if cf then ({ s with mem := ld.2 }, .err .commitFail) else ({ disk := d1, mem := ld.2 }, .imported acct r [] []))
+    else
     -- `defer manager.InvalidateAccountCache(account)` runs on every exit from here on; the transaction is
     -- rolled back in every case
     let e := issue { d := d1, m := ld.2, pend := [] } sc acct false n
@@ -322,11 +328,12 @@ def stepImportWith (inval : Mem → Scope → Acct → Mem) (s : State) (dry : B
         | none => ({ s with mem := inval ld2.2 sc acct }, .err .acctNotFound)
         | some r' => ({ s with mem := inval ld2.2 sc acct }, .imported acct r' ext int)
 
-def stepImport (s : State) (dry : Bool) (sc : Scope) (nm : Name) (key : Key) (n : Nat) : State × Res :=
-  stepImportWith inval s dry sc nm key n
+def stepImport (s : State) (dry : Bool) (sc : Scope) (nm : Name) (key : Key) (n : Nat) (cf : Bool := false) :
+    State × Res :=
+  stepImportWith inval s dry sc nm key n cf
 
 /-- wallet.RenameAccount -/
-def stepRename (s : State) (sc : Scope) (a : Acct) (nm : Name) : State × Res :=
+def stepRename (s : State) (sc : Scope) (a : Acct) (nm : Name) (cf : Bool := false) : State × Res :=
   if (lookupName s.disk sc nm).isSome then (s, .err .dupName) else
   if nm = 0 then (s, .err .badName) else
   match s.disk.rows sc a with
@@ -336,7 +343,9 @@ def stepRename (s : State) (sc : Scope) (a : Acct) (nm : Name) : State × Res :=
     let m1 : Mem := match s.mem.accts sc a with
       | none => s.mem
       | some c => { s.mem with accts := setRow s.mem.accts sc a (some { c with name := nm }) }
-    ({ disk := d1, mem := (loadAcct d1 m1 sc a).2 }, .ok)
+    -- a failed commit keeps the eagerly renamed / freshly loaded cache entry
+    if cf then ({ s with mem := (loadAcct d1 m1 sc a).2 }, .err .commitFail)
+    else ({ disk := d1, mem := (loadAcct d1 m1 sc a).2 }, .ok)
 
 /-- wallet.NextAccount -/
 def stepNewAcct (s : State) (sc : Scope) (nm : Name) : State × Res :=
@@ -372,13 +381,13 @@ def stepUnlock (s : State) : State × Res :=
   else (s, .err .acctNotFound)
 
 def step (s : State) : Op → State × Res
-  | .newAddr sc a internal => stepNewAddr s sc a internal
+  | .newAddr sc a internal cf => stepNewAddr s sc a internal cf
   | .curAddr sc a => stepCurAddr s sc a
   | .fund sc a => stepFund s sc a
-  | .createTx sc a dry huge nf => stepCreateTx s sc a dry huge nf
+  | .createTx sc a dry huge nf cf => stepCreateTx s sc a dry huge nf cf
   | .fundPsbt sc a coin => stepFundPsbt s sc a coin
-  | .importAcct dry sc nm key n => stepImport s dry sc nm key n
-  | .rename sc a nm => stepRename s sc a nm
+  | .importAcct dry sc nm key n cf => stepImport s dry sc nm key n cf
+  | .rename sc a nm cf => stepRename s sc a nm cf
   | .newAcct sc nm => stepNewAcct s sc nm
   | .lock => ({ s with mem := { s.mem with locked := true } }, .ok)
   | .unlock => stepUnlock s
@@ -419,8 +428,15 @@ def askRestarted (s : State) (q : Query) : Ans := ask s.disk emptyMem q
 
 /-- requests whose database transaction is rolled back by design -/
 def Op.isDryRun : Op → Bool
-  | .createTx _ _ dry _ _ => dry
-  | .importAcct dry _ _ _ _ => dry
+  | .createTx _ _ dry _ _ _ => dry
+  | .importAcct dry _ _ _ _ _ => dry
+  | _ => false
+
+/-- requests with an EAGER cache mutation (account loaded from the transaction's view, cached name rewritten) whose
+commit fails: the known "memory ahead of disk after rollback" family at the wallet level -/
+def Op.eagerCommitFail : Op → Bool
+  | .importAcct dry _ _ _ _ cf => !dry && cf
+  | .rename _ _ _ cf => cf
   | _ => false
 
 def Res.isErr : Res → Bool
